@@ -687,6 +687,24 @@ pub fn cases(thorough: bool) -> Vec<Case> {
             v.push(Case::Write { p: p.clone(), level: [0u32, 5, 11][k % 3], sched: s, explore_faults: explore });
         }
     }
+    // names that are not ASCII (byte length != character count), a long name, a name with a space: through both directions
+    let odd_names = |p: &Program| -> Program {
+        let mut q = p.clone();
+        let pool = ["\u{e9}1", "\u{e9}2", "donn\u{e9}es \u{2620}.bin", "dir/sous-r\u{e9}pertoire/f", "\u{4e2d}\u{6587}"];
+        for (i, n) in q.names.iter_mut().enumerate() {
+            *n = if i < pool.len() { pool[i].to_string() } else { format!("{}{}", pool[i % pool.len()], i) };
+        }
+        q
+    };
+    for (k, p) in families::bases(Entropy::Pattern).iter().enumerate() {
+        let q = odd_names(p);
+        v.push(Case::Write { p: q.clone(), level: [0u32, 5, 11][k % 3], sched: Sched { uniform: Some(7), at: BTreeMap::new() }, explore_faults: false });
+        for l in L4::ALL {
+            for d in [0u8, 1, 2] {
+                v.push(Case::Extract { p: q.clone(), layers: l, sched: Sched { uniform: Some(5), at: BTreeMap::new() }, explore_faults: false, decline: d });
+            }
+        }
+    }
     // (2) extraction through C of archives written by the Rust writer
     let mut xprogs = families::bases(Entropy::Pattern);
     xprogs.extend(families::tree(3, 5, 2, &[1, CHUNK + 1, BLOCK + 1], Entropy::Noise).into_iter().step_by(if thorough { 1 } else { 5 }));
@@ -756,7 +774,7 @@ pub fn run(started: Instant) -> i32 {
         rep,
         Meta {
             level: "model_checking",
-            rule: "libmla.so built from the working tree is loaded with dlopen and driven through its C entry points in worker processes. (1) every program of a bounded tree (and rich bases, flush placements) expressed as mla_archive_file_new/append/flush/close + mla_archive_close, with write callbacks that accept everything / 1 byte / 7 bytes per call; the collected bytes are read by the Rust ArchiveReader and compared with the reference model. (2) archives written by the Rust writer (4 layer combos) extracted with mla_roarchive_extract through read callbacks returning everything / 1 / 5 bytes and per-file write callbacks accepting partial buffers: exact bytes per file; also with a file callback that declines every other file (subset extraction: nothing for the declined ones). (3) for a subset of (1)/(2), at EVERY callback invocation index: accept 1 byte, accept half, or report failure - a reported failure must surface as a non-success status no later than the close; 37 NULL-pointer / cleared-handle / double-close / handle-after-failed-call placements must return a non-success status. No crash, signal or panic across the FFI in any case. states = distinct (case, schedule)".to_string(),
+            rule: "libmla.so built from the working tree is loaded with dlopen and driven through its C entry points in worker processes. (1) every program of a bounded tree (and rich bases, flush placements) expressed as mla_archive_file_new/append/flush/close + mla_archive_close, with write callbacks that accept everything / 1 byte / 7 bytes per call; the collected bytes are read by the Rust ArchiveReader and compared with the reference model. (2) archives written by the Rust writer (4 layer combos) extracted with mla_roarchive_extract through read callbacks returning everything / 1 / 5 bytes and per-file write callbacks accepting partial buffers: exact bytes per file; also with a file callback that declines every other file (subset extraction: nothing for the declined ones); base programs also with non-ASCII, nested and spaced names in both directions. (3) for a subset of (1)/(2), at EVERY callback invocation index: accept 1 byte, accept half, or report failure - a reported failure must surface as a non-success status no later than the close; 37 NULL-pointer / cleared-handle / double-close / handle-after-failed-call placements must return a non-success status. No crash, signal or panic across the FFI in any case. states = distinct (case, schedule)".to_string(),
             exhaustive: true,
             bounds: json!({"cases": cs.len(), "null_placements": N_NULL}),
             assumptions: vec!["the C API only offers the default layers (compress+encrypt) for writing".to_string(), "scaled constants".to_string()],
